@@ -49,6 +49,9 @@ type MemData struct {
 	ObjectLike bool // reads through an open handle fail once the file is tombstoned
 	ShortWrite bool // a failing Write applies half of the bytes first
 
+	// ReadLog, when set, observes every Read of every handle (offset before the read, bytes read).
+	ReadLog func(ptr string, off int64, n int)
+
 	// accounting
 	Opens, Closes int
 	Handles       []*MemHandle
@@ -211,6 +214,9 @@ func (h *MemHandle) Read(p []byte) (int, error) {
 		return 0, io.EOF
 	}
 	n := copy(p, h.data[h.pos:])
+	if h.d.ReadLog != nil {
+		h.d.ReadLog(h.Ptr, h.pos, n)
+	}
 	h.pos += int64(n)
 	h.d.Hook.exit("Read", h.Ptr, nil)
 	return n, nil
